@@ -97,7 +97,7 @@ pub fn loader_error_for(n: u8) -> dr::Error {
     }
 }
 
-pub const STD_ERRORS: u8 = 12;
+pub const STD_ERRORS: u8 = 16;
 
 pub fn std_error_for(n: u8) -> Box<dyn std::error::Error + Send + Sync> {
     use std::io::{Error as IoError, ErrorKind as K};
@@ -113,7 +113,12 @@ pub fn std_error_for(n: u8) -> Box<dyn std::error::Error + Send + Sync> {
         8 => Box::new(std::str::from_utf8(&[0xffu8, 0xfe][..]).unwrap_err()),
         9 => "scripted message".into(),
         10 => String::new().into(),
-        _ => Box::new("x".parse::<u32>().unwrap_err()),
+        11 => Box::new("x".parse::<u32>().unwrap_err()),
+        // the library's own decoder errors, handed back by a consumer
+        12 => Box::new(DecodeError::StreamExpected(0)),
+        13 => Box::new(DecodeError::LimitReached(12)),
+        14 => Box::new(DecodeError::DecodeStringFailed(4, "scripted".into())),
+        _ => Box::new(DecodeError::ScopeUnknown(8, 0xFFFF)),
     }
 }
 
@@ -127,6 +132,8 @@ pub fn std_error_identity(e: &(dyn std::error::Error + 'static)) -> (String, Str
         "Utf8Error".to_string()
     } else if e.is::<std::num::ParseIntError>() {
         "ParseIntError".to_string()
+    } else if e.is::<DecodeError>() {
+        "DecodeError".to_string()
     } else {
         "other".to_string()
     };
